@@ -20,13 +20,13 @@ NOTES = {
  "C13": ("collision search predicates and resolve algebra (merge, hard sphere), index fix-up after removals", "doubles as reals; recursive tree search not decided"),
  "C14": ("abstract sequence view of add/remove/hash lookup incl. arbitrary stale lookup tables, memory safety, Python container index logic", "qsort contract assumed; integers mathematical"),
  "C15": ("boundary wrap loops, open-boundary removal, ghost boxes, tree local lemmas", "doubles as reals; global tree invariant not decided"),
+ "C16": ("variational force loops equal the symbolic derivative of the pair-force specification (1st and 2nd order, accumulation rule); all 65 derivative constructors equal the sympy derivative of the real forward map; add_variation / rescale / MEGNO bookkeeping; Python dispatch", "doubles as reals; Kepler-Pal solver through its summary contract; propagation by the integrators beyond the force routine, MEGNO->2 not decided"),
  "C17": ("reb_particle_diff differs iff a non-pointer member differs; compare-mode flag semantics of reb_binary_diff for arbitrary field sequences; no persisted array embedding addresses is compared byte-wise; copy reads the source only through the serialiser", "byte content uninterpreted; evolution of a copy argued from C05 only"),
  "C18": ("exhaustive per-member comparison of clang record layouts with the ctypes classes, option tables vs C enums, setter/getter round trips", "x86-64 layout; alias table listed as assumptions"),
  "C19": ("whole-library frames: no written global state except reb_sigint, no non-reentrant libc, lockset around step and served serialisation, serialisation write frame", "data-race-freedom meta-theorem trusted; scheduling itself not modelled"),
  "C20": ("quaternion algebra and constructors incl. degenerate ones, unit conversions, frame shifts and linear combinations", "doubles as reals; reference constants table is an assumption"),
 }
 NA = {
- "C16": "variational equations: contract pack not built yet in this session (planned: derivative constructors vs symbolic derivative of the forward map)",
 }
 props = [json.loads(l)["id"] for l in open(os.path.join(ROOT, "properties.jsonl"))]
 have = sorted({os.path.basename(p)[:3] for p in glob.glob(os.path.join(ROOT, "contracts", "C[0-9][0-9]_*.py"))})
